@@ -1,7 +1,8 @@
 (* Proofs for C05: trial order of parseDERData, PEM label route, base64 route, name and
    stdin independence of the dispatcher, refutations of the unrepaired code. *)
 From WI Require Import Lib.Base Lib.Info Lib.Strings Model.Base64 Model.Dispatch Model.Render Model.Routes.
-From WI Require Proofs.Base64 Proofs.Dispatch.
+From WI Require Import Model.Pem.
+From WI Require Proofs.Base64 Proofs.Dispatch Proofs.Pem.
 From Coq Require Import ZifyN ZifyNat ZifyBool.
 Open Scope N_scope.
 
@@ -1511,4 +1512,60 @@ Example surrounded_example :
   reserved_in table (bs "dir/bundle.pem") = false /\
   forallb (fun r => negb (matches_magic r text)) table = true /\
   is_asn1 text = false /\ is_b64_asn1 text = false /\ is_mixed_pem text = true.
+Proof. vm_compute. auto. Qed.
+
+(* ====================================================================== *)
+(* J. with the model of encoding/pem.Decode in place of the block oracle   *)
+(* ====================================================================== *)
+
+Lemma der_nonempty : forall k d, der_of_kind k d = true -> d <> [].
+Proof.
+  intros k d H. apply der_of_kind_parts in H as (_ & Hs & _). destruct d; [discriminate|congruence].
+Qed.
+
+Lemma framing : forall k d crlf pre post, der_of_kind k d = true ->
+  index_of pem_begin (pre ++ pem_begin) = Some (length pre) -> index_of pem_begin post = None ->
+  pem_blocks_of (pem_text (label_of k) d crlf pre post) = [(label_of k, d)].
+Proof.
+  intros k d crlf pre post Hd Hpre Hpost.
+  apply Proofs.Pem.pem_blocks_of_pem_text; auto using Proofs.Pem.label_of_no_lf.
+  - apply der_of_kind_parts in Hd. tauto.
+  - eapply der_nonempty; eauto.
+Qed.
+
+Section WithPemModel.
+  Variable L : lib.
+  Variable sniff_other : bytes -> bytes -> bool.
+  Variable parse_other : bytes -> bytes -> result info.
+  Notation inspect' := (inspect_file L pem_blocks_of sniff_other parse_other).
+
+  Theorem pem_eq_der_model : forall k d crlf pre post, (k <= 6)%nat ->
+    der_of_kind k d = true -> cert_oracle_ok L k d = true ->
+    index_of pem_begin (pre ++ pem_begin) = Some (length pre) -> index_of pem_begin post = None ->
+    route_pem L pem_blocks_of (pem_text (label_of k) d crlf pre post) = route_der L d.
+  Proof. intros. apply pem_eq_der; auto using framing. Qed.
+
+  Theorem inspect_pem_eq_der_model : forall name k d crlf post, (k <= 6)%nat ->
+    der_of_kind k d = true -> cert_oracle_ok L k d = true ->
+    index_of pem_begin post = None ->
+    inspect' name (pem_text (label_of k) d crlf [] post) = route_der L d.
+  Proof. intros. apply inspect_pem_eq_der; auto. apply framing; auto. Qed.
+
+  Theorem pem_surrounded_model : forall name k d crlf pre post i, (k <= 6)%nat ->
+    der_of_kind k d = true -> cert_oracle_ok L k d = true ->
+    let text := pem_text (label_of k) d crlf pre post in
+    index_of pem_begin (pre ++ pem_begin) = Some (length pre) -> index_of pem_begin post = None ->
+    reserved_in table name = false ->
+    forallb (fun r => negb (matches_magic r text)) table = true ->
+    sniff_other (bs "IsUUID") text = false -> sniff_other (bs "IsJWT") text = false ->
+    is_asn1 text = false -> is_b64_asn1 text = false -> is_mixed_pem text = true ->
+    route_der L d = Ok i ->
+    inspect' name text = Ok i.
+  Proof. intros. apply (pem_surrounded_now L pem_blocks_of sniff_other parse_other name k d crlf pre post); auto. apply framing; auto. Qed.
+End WithPemModel.
+
+Example framing_example :
+  index_of pem_begin ((bs "Bag Attributes: none" ++ [13; 10]) ++ pem_begin) = Some (length (bs "Bag Attributes: none" ++ [13; 10]))
+  /\ index_of pem_begin (bs "# end") = None
+  /\ pem_blocks_of (pem_text (label_of 4) d_sec1 true (bs "Bag Attributes: none" ++ [13; 10]) (bs "# end")) = [(label_of 4, d_sec1)].
 Proof. vm_compute. auto. Qed.
